@@ -189,7 +189,8 @@ def run_pipeline(pid, tier, seed, presets, per, budget, malmax, over, rounds=1, 
             info = gen_cases(binary, os.path.join(schemas_dir, "schemas_%s.json" % preset), cpath, rseed, per, budget,
                              malmax, over, types=types)
             stats["skipped_too_big"][preset] = info.get("skipped_too_big") or []
-            share = max(2, (lib.NCPU - 2) // max(1, len(presets)))
+            # about two shards per worker: better balance, and every TLC run stays short
+            share = max(2, (2 * (lib.NCPU - 2)) // max(1, len(presets)))
             for k, sh in enumerate(shard_cases(cpath, share)):
                 jobs.append((preset, schemas_dir, sh, binary, k, shard_timeout))
             os.unlink(cpath)
@@ -313,9 +314,9 @@ def evidence_coverage(stats, extra=None):
 TIERS = {
     # per = values per type and preset; budget = leaf bytes per value
     "C04": {"quick": dict(per=5, budget=5000, malmax=2000, over=1, rounds=1),
-            "thorough": dict(per=10, budget=9000, malmax=4000, over=2, rounds=3, time_budget=650)},
+            "thorough": dict(per=8, budget=8000, malmax=3000, over=2, rounds=3, time_budget=600, shard_timeout=1500)},
     "C05": {"quick": dict(per=6, budget=6000, malmax=0, over=0, rounds=1),
-            "thorough": dict(per=12, budget=12000, malmax=0, over=0, rounds=3, time_budget=600)},
+            "thorough": dict(per=10, budget=10000, malmax=0, over=0, rounds=3, time_budget=500, shard_timeout=1500)},
 }
 
 
